@@ -6,12 +6,14 @@ from props_common import BASE_TB
 _WQ, _WT = 8, 14
 
 PROP = {
-    "modules": ["YorkieModel.Props.C20", "YorkieModel.Props.C20Srv"],
+    "modules": ["YorkieModel.Props.C20", "YorkieModel.Props.C20Srv", "YorkieModel.Props.C20Wiring"],
     "engines": [
         # integrated engine: real client SDK + real in-process server (memory DB), traffic captured at the HTTP transport
         {"name": "srv", "args": ["orc=c20"], "quick": {"n": 320, "workers": 8}, "thorough": {"n": 8000, "workers": 14}},
         {"name": "store", "quick": {"n": 16000, "workers": 4}, "thorough": {"n": 1000000, "workers": 10}},
         {"name": "storex", "quick": {"n": _WQ * _WQ, "workers": _WQ}, "thorough": {"n": _WT * _WT, "workers": _WT}},
+        # + per worker two `WIRE` traces: the backend cache manager built with distinct TTL options, each expiring cache
+        #   must expire by its own (wall clock, ~0.15 s each; oracle only)
         {"name": "lru", "quick": {"n": 6000, "workers": 2}, "thorough": {"n": 300000, "workers": 4}},
     ],
     "trusted_base": BASE_TB + [
@@ -19,8 +21,9 @@ PROP = {
         "google/btree modelled by its in-order item list (ReplaceOrInsert/Delete/AscendGreaterOrEqual as list functions); sort.Slice modelled by a stable insertion sort (result of the merge loop is order-independent for ranges with From<=To)",
         "*ChangeInfo modelled as the value (seq, actor, presence kind, opaque tag); the harness compares rows by pointer in its oracle and by (seq,tag) in the diff",
         "the harness reads the unexported field ChangeStore.ranges by reflection",
+        "factgen/cachewiring.go: syntactic extraction of the constructor calls in cache.New, the cache.Options literal in backend.New and the Config.Parse* duration parsers; the facts are SOURCE TEXTS of arguments (an alias such as `ttl := opts.X` before the call would have to be added to the expectation table); tied to the running code by the `WIRE` traces of the lru engine (cache.New with distinct TTLs, each expiring cache observed to expire by its own)",
     ],
-    "level_text": "Theorems in Lean over every call sequence and every ground-truth table (unbounded sequence numbers): the cache invariant is inductive over EnsureChanges (with a failing fetcher), ReplaceOrInsert, ExpandRange, ChangesInRange, RemoveChangesByActor and the CreateChangeInfos write-through composite; after any valid history a successful EnsureChanges(lo,hi) followed by ChangesInRange(lo,hi) returns exactly the stored rows of [lo,hi] in order; every query returns only stored rows; a known range is served without any fetch; the fetcher is only called on maximal runs of sequence numbers that are neither cached nor covered (also w.r.t. the store at the moment of each call), never when the range is already known; mergeAdjacentRanges / calcMissingRanges specifications; sharded-LRU wrapper specification (a hit is the last Add); abstract snapshot-cache rebuild = cold rebuild. Tied to server/backend/database/mongo/changestore.go by per-call differential replay (random + small-scope exhaustive) with the complete store state (ranges, tree) compared after every call.",
+    "level_text": "Theorems in Lean over every call sequence and every ground-truth table (unbounded sequence numbers): the cache invariant is inductive over EnsureChanges (with a failing fetcher), ReplaceOrInsert, ExpandRange, ChangesInRange, RemoveChangesByActor and the CreateChangeInfos write-through composite; after any valid history a successful EnsureChanges(lo,hi) followed by ChangesInRange(lo,hi) returns exactly the stored rows of [lo,hi] in order; every query returns only stored rows; a known range is served without any fetch; the fetcher is only called on maximal runs of sequence numbers that are neither cached nor covered (also w.r.t. the store at the moment of each call), never when the range is already known; mergeAdjacentRanges / calcMissingRanges specifications; sharded-LRU wrapper specification (a hit is the last Add); abstract snapshot-cache rebuild = cold rebuild; (by evaluation over the cache-wiring table regenerated from server/backend/cache/manager.go, backend.go and config.go on every run) each cache of the cache manager is built from its OWN size and TTL options, no option is used twice or left unused, every option is filled from the configuration value of the same name (each_cache_built_from_its_own_options, options_used_exactly_once, options_filled_from_same_named_config). Tied to server/backend/database/mongo/changestore.go by per-call differential replay (random + small-scope exhaustive) with the complete store state (ranges, tree) compared after every call.",
     "level_note": "Trusted: Lean kernel; the hand-written Model/ChangeStore.lean agrees with the Go code only as far as the `store`/`storex` engines exercise it (quick tier: exhaustively for all call sequences of length <= 4 over sequence numbers 1..6 and one table, length <= 3 for a second table); integers unbounded in the model; the RWMutex is not modelled (C16/C17 cover locking).",
     "technique": "Lean 4 proof (invariant + induction over call sequences) + differential replay of mongo.ChangeStore against a ground-truth table",
     "partial": [
@@ -29,7 +32,8 @@ PROP = {
     ],
     "not_modelled": [
         "concurrency of ChangeStore (sync.RWMutex) and of the LRU shards",
-        "expirable LRU time-to-live (wall clock)",
+        "expirable LRU time-to-live (wall clock): not in the model; WHICH option becomes the TTL of which cache is a regenerated fact (Props/C20Wiring.lean) and is observed with tolerant timing by the `WIRE` traces (entry served right after Add, gone within 25 x TTL, the other cache's entry still served)",
+        "the caches of the MongoDB client (server/backend/database/mongo/client.go, project_cache.go) are not part of the wiring table",
         "cache manager statistics (hits/misses counters) – not part of the answers",
     ],
     "assumptions": [
